@@ -174,6 +174,10 @@ def strat_dxdtf(ctx):
         "sys": gen.system_spec(variety="mild", max_species=4, max_reactions=4, max_order=4, max_cells=1),
         "route": st.sampled_from(["ctor", "dict"]),
         "out": gen.us_mild,
+        # an integrator calls the SAME function object again and again at other states: per further call one
+        # multiplier per species (applied cyclically) to the system's state
+        "more_states": st.lists(st.lists(st.sampled_from([0.0, 0.5, 1.0, 2.0, 3.0]), min_size=1, max_size=4),
+                                min_size=0, max_size=3),
     })
 
 
@@ -198,6 +202,16 @@ def check_dxdtf(ctx, c):
         if abs(a - b) > RTOL * s + 1e-300:
             raise Violation("make_dxdtf and compute_dstatedt disagree on entry %d: %r vs %r" % (t, a, b),
                             key="dxdtf-vs-kinetics")
+    # further calls of the same function object (other states, then the first state again)
+    calls = [[m[t % len(m)] * x[t] for t in range(len(x))] for m in c.get("more_states", [])]
+    if calls:
+        calls.append(list(x))
+        ctx.count("dxdtf-repeated-calls")
+    for n_call, xs in enumerate(calls, start=2):
+        want, scs = model.derivative(xs)
+        got = sut_call("dxdtf(t, x) again", f, 0.1 * n_call, [v / qs for v in xs])
+        cmp_vec([float(g) * qs / ts for g in got], want, scs, "call #%d of the same make_dxdtf() function" % n_call,
+                "dxdtf:repeated-call")
 
 
 # ---- facet: one Euler step -----------------------------------------------------------------------
